@@ -340,7 +340,22 @@ func (w *World) exec(cs *clientState, idx int, op Op) *Rec {
 				break
 			}
 			r.OK = true
-			r.Batches = w.readStream(ch)
+			if op.Consume == "lazy" {
+				// a reader slower than the scan: whenever nothing else moves and the stream's buffer is full it
+				// takes one batch, so the buffer is full again each time a waiting scan worker gets its batch
+				// in - also at the moment the scan ends; then it reads the rest
+				for n := 0; n < 5000; n++ {
+					s.YieldIdle("client.stream.lazy")
+					if len(ch) < cap(ch) {
+						break
+					}
+					if m, ok := <-ch; ok {
+						r.Batches = append(r.Batches, batchOf(m))
+					}
+				}
+			}
+			r.Batches = append(r.Batches, w.readStream(ch)...)
+
 		case "streamparts":
 			// what a client of the streaming API does: ask for the partitions, then stream each one
 			resp, err := b.GetPartitions(ctx, &proto.ListPartitionRequest{Key: Bytes(op.Key), End: Bytes(op.End)})
